@@ -305,6 +305,15 @@ func (p *Packer) packWalkFn(root, src, dst string, tarW *tar.Writer, meta *Meta,
 			if ok && src != dst && climbsAboveRoot(root, strings.Replace(path, src, dst, 1), target) {
 				ok = false
 			}
+			if ok && src == dst {
+				// validSymlink reads the target as text. Followed the way the
+				// operating system does - through other links of the tree,
+				// "a -> ." and then "a/../x" - it may still leave the tree,
+				// and Unpack would refuse such a link.
+				if lerr := p.checkSymlinkStaysInside(root, path, target); lerr != nil {
+					ok, err = false, lerr
+				}
+			}
 			if ok {
 				// We can simply copy the link.
 				header.Typeflag = tar.TypeSymlink
@@ -383,6 +392,49 @@ func (p *Packer) packWalkFn(root, src, dst string, tarW *tar.Writer, meta *Meta,
 		meta.Size += size
 
 		return nil
+	}
+}
+
+// checkSymlinkStaysInside follows the symlink at path the way the operating
+// system would and fails if that leads out of root, unless the place it
+// reaches is one the Packer allows links to. Targets that do not exist, or
+// that loop, lead nowhere and are left to the textual rules.
+func (p *Packer) checkSymlinkStaysInside(root, path, target string) error {
+	realRoot, err := filepath.EvalSymlinks(root)
+	if err != nil {
+		return nil
+	}
+	realDir, err := filepath.EvalSymlinks(filepath.Dir(path))
+	if err != nil {
+		return nil
+	}
+	resolved, ok := followSymlinks(realDir, target)
+	if !ok {
+		return nil
+	}
+	within := func(dir, p string) bool {
+		prefix := dir
+		if !strings.HasSuffix(prefix, string(filepath.Separator)) {
+			prefix += string(filepath.Separator)
+		}
+		return p == dir || strings.HasPrefix(p, prefix)
+	}
+	if within(realRoot, resolved) {
+		return nil
+	}
+	for _, prefix := range p.allowSymlinkTargets {
+		if !filepath.IsAbs(prefix) {
+			prefix = filepath.Join(root, prefix)
+		}
+		if within(filepath.Clean(prefix), resolved) {
+			return nil
+		}
+	}
+	return &IllegalSlugError{
+		Err: fmt.Errorf(
+			"invalid symlink (%q -> %q) leads outside of the source directory by way of another symlink",
+			path, target,
+		),
 	}
 }
 
